@@ -38,6 +38,31 @@ def seg_oracle(r):
         lo, hi = ranges[i]
         if not (lo <= e["idx"] < max(hi, lo + 1)):
             return "error %d names token %d, outside its segment %d = tokens [%d,%d)" % (errs.index(e), e["idx"], i, lo, hi)
+    # ... and is located (line, column of the text that was passed in) inside its own segment: from the segment's
+    # first character up to and including the semicolon that ends it (or the end of the input)
+    whole = r["whole"]
+    if r.get("spans") and whole.isascii():
+        lines = whole.split("\n")
+        starts = [0]
+        for ln in lines:
+            starts.append(starts[-1] + len(ln) + 1)
+        for e, i in zip(errs, bad_idx):
+            if not e.get("line"):
+                return "position: error %d of malformed segment %d carries no line/column" % (errs.index(e), i)
+            if e["line"] > len(lines):
+                return "position: error for segment %d is located at line %d, the input has %d lines" % (i, e["line"], len(lines))
+            # the tokenizer's documented column convention: a tab counts as 4 columns
+            c, k, ltxt = 1, 0, lines[e["line"] - 1]
+            while k < len(ltxt) and c < e["col"]:
+                c += 4 if ltxt[k] == "\t" else 1
+                k += 1
+            off = starts[e["line"] - 1] + k + (e["col"] - c)
+            lo, hi = r["spans"][i]
+            semi = whole.find(";", hi)
+            limit = semi if semi >= 0 else len(whole)
+            if not (lo <= off <= limit):
+                return "position: error for malformed segment %d (%r, characters %d..%d) is located at line %d column %d = character %d" % (
+                    i, r["segs"][i][:60], lo, limit, e["line"], e["col"], off)
     if (len(errs) > 0) != (not r["strict_ok"]):
         return "iff: recovery reports %d errors but strict parsing %s" % (len(errs), "accepts" if r["strict_ok"] else "rejects")
     return None
@@ -66,7 +91,9 @@ def run(tier):
     scripts = [[(k["witness"]["segs"][i], "witness") for i in range(len(k["witness"]["segs"]))] for k in known
                if isinstance(k.get("witness"), dict) and k["witness"].get("segs")]
     scripts += loopgen.scripts(rng, n)
-    p = common.vh(["recseg"], input="".join(json.dumps({"segs": [s for s, _ in sg]}) + "\n" for sg in scripts), timeout=1800)
+    layouts = [loopgen.layout(rng, len(sg)) for sg in scripts]
+    p = common.vh(["recseg"], input="".join(json.dumps({"segs": [s for s, _ in sg], "prefix": lay[0], "seps": lay[1]}) + "\n"
+                                            for sg, lay in zip(scripts, layouts)), timeout=1800)
     rows = [json.loads(l) for l in p.stdout.splitlines() if l.strip()]
     if p.returncode != 0 or len(rows) != len(scripts):
         rp.violation({"kind": "harness", "detail": p.stderr[-2000:], "got": len(rows), "want": len(scripts),
@@ -77,6 +104,8 @@ def run(tier):
         for _, k in sg:
             kinds_seen[k] = kinds_seen.get(k, 0) + 1
         nontrivial.add(tuple(s for s, _ in sg))
+        if any(k == "valid_rich" and not sr["accepted"] for (_, k), sr in zip(sg, r["seg_results"])):
+            continue   # a statement of the rich pool that the parser does not accept: not a script of this oracle
         why = seg_oracle(r)
         if why:
             failures.setdefault(why.split(":")[0], []).append((r, why))
@@ -86,17 +115,19 @@ def run(tier):
         r, why = lst[0]
         # shrink: drop segments while the failure persists
         segs = list(r["segs"])
+        prefix, seps = r.get("prefix") or "", list(r.get("seps") or [])
         changed = True
         while changed and len(segs) > 1:
             changed = False
             for i in range(len(segs)):
                 cand = segs[:i] + segs[i + 1:]
-                pr = common.vh(["recseg"], input=json.dumps({"segs": cand}) + "\n")
+                cseps = seps[:max(i - 1, 0)] + seps[max(i - 1, 0) + 1:]
+                pr = common.vh(["recseg"], input=json.dumps({"segs": cand, "prefix": prefix, "seps": cseps}) + "\n")
                 rr = json.loads(pr.stdout.splitlines()[0])
                 if seg_oracle(rr):
-                    segs, changed, why = cand, True, seg_oracle(rr)
+                    segs, seps, changed, why = cand, cseps, True, seg_oracle(rr)
                     break
-        rp.violation({"kind": "oracle", "segs": segs, "why": why, "count_in_run": len(lst),
+        rp.violation({"kind": "oracle", "segs": segs, "prefix": prefix, "seps": seps, "why": why, "count_in_run": len(lst),
                       "explanation": "ParseWithRecovery of the segments joined by ';' does not return precisely the trees of the well-formed segments and one error per malformed one inside it"},
                      "segments_%s" % cls)
         shown += 1
@@ -171,7 +202,7 @@ def run(tier):
 def replay(path):
     d = json.load(open(path))
     if d.get("segs") is not None:
-        pr = common.vh(["recseg"], input=json.dumps({"segs": d["segs"]}) + "\n")
+        pr = common.vh(["recseg"], input=json.dumps({"segs": d["segs"], "prefix": d.get("prefix") or "", "seps": d.get("seps") or []}) + "\n")
         r = json.loads(pr.stdout.splitlines()[0])
         why = seg_oracle(r)
         print(why or "recovery returns the well-formed segments' trees and one error per malformed segment")
